@@ -53,7 +53,8 @@ CHECKS = {
         "rule": ("same generator as C01 with the structural walk enabled (every elementary op up to 600 keys, every 16th above, always at op boundaries); "
                  "non-trivial = a node merge was observed (node count dropped) on a tree that reached height >= 3; distinct = distinct plan JSON"),
         "assumptions": TREE_ASSUME,
-        "jobs": [{"pkg": "c03shape", "kinds": ["shapeplan"], "shards_quick": 4, "scale_quick": 0.25, "scale_thorough": 2, "shards_thorough": 16, "fuzz": [("FuzzTreeShape", "shapeplan")]}],
+        "jobs": [{"pkg": "c03shape", "run": "TestTreeHuge", "kinds": ["tree-huge"], "shards_quick": 4, "scale_thorough": 4, "shards_thorough": 8},
+                 {"pkg": "c03shape", "run": "TestTreeShape", "kinds": ["shapeplan"], "shards_quick": 4, "scale_quick": 0.25, "scale_thorough": 2, "shards_thorough": 16, "fuzz": [("FuzzTreeShape", "shapeplan")]}],
     },
     "C05": {
         "level": "exploration",
@@ -288,7 +289,7 @@ CHECKS = {
 RULE_ADDENDA = {
     "C01": " Key kinds also include pointer keys (the comparator dereferences) and []byte keys (a type == cannot compare).",
     "C02": " Key kinds as in C01 (incl. pointer and []byte keys); a 'churn' step performs exactly 2^8 or 2^16 structural changes away from the iterators between two Next calls.",
-    "C03": " Key kinds as in C01 (incl. pointer and []byte keys).",
+    "C03": " Key kinds as in C01 (incl. pointer and []byte keys). Kind tree-huge: one tree of 0.5-1.1 million keys (7 and more levels): monotone fill, 0-200000 keys scattered into the gaps, a contiguous block of 0-400000 keys drained; after each phase the structural walk, depth bound, complete ascending iteration and a Contains (with comparison count) for every key (always non-trivial).",
     "C04": " Elements are padded pointer-holding structs so that weak pointers to popped elements can be required to clear after a GC; 'bulk_push' steps build backlogs of 1000-5000 items; iterations may be nested; Grow/Shrink arguments go up to MaxInt.",
     "C05": " Priorities are ints or []int (pointer-holding); 'bulk' steps push and pop 1000-5000 items (heap and queue).",
     "C06": " Steps also include 'relocate' (the List value is moved to another address), 'bulk' (hundreds of nodes) and reuse of cleared handles; kind list-gc: nodes only reachable through the list survive three GCs with their pointer-holding payload intact.",
